@@ -3,41 +3,38 @@
     Model: Bdb/Model.v -- the raw trace-event stream of one thread/task is the INPUT
     (every list of events; no bound on length, depth, number of frames); the filter
     chain is evaluated over the GENERATED registration order (Gen/ChildHookOrder.v,
-    Gen/SkipList.v).  Property theorems only; proofs in Bdb/{Basics,Filters,StepMode}.v.
+    Gen/SkipList.v).  Property theorems only; proofs in Bdb/{Basics,Filters,StepMode,
+    ContinueMode,NextMode,NextProps}.v.
 
-    The full property does NOT hold of the faithful model.  Four clauses are refuted
-    with concrete streams (each re-established against the real code by
-    harness/props/c05.py, see the signatures there) and the strongest statements
-    that hold are proved as _partial:
-      C05_lambda_refuted     module tracing off: a lambda of the script is prompted
-                             (FilterMainScript is registered after FilterLambda, is
-                             called first and never returns None)
+    Proved at full strength: C05_filters (all four filter clauses), C05_threads_off, C05_step.
+    Three clauses do NOT hold of the faithful model; each is refuted with a concrete stream
+    (re-established against the real code on every run by harness/props/c05.py; the signatures
+    are KNOWN FINDINGS) and the strongest statement that holds is proved as _partial:
       C05_callable_refuted   module tracing off, callable statement: its module is not
                              _script, nothing is ever prompted
       C05_next_refuted       all-next: after an exception event whose traceback goes
                              into a callee, while botframe is not on the f_back chain,
                              Pdb selects the dead callee frame; the stepped frame is
-                             never prompted again
+                             never prompted again          -> C05_next_partial (hyp. simple_tb)
       C05_continue_refuted   all-continue: botframe is a generator/coroutine frame;
                              StopIteration events prompt again
-    Proved positively: C05_filters_partial, C05_threads_off, C05_step.  The positive parts of the
-    next / continue clauses (streams without those shapes) are validated by the correspondence run
-    only (model = real code on every generated program), not proved. *)
-From NL Require Import Bdb.Model Bdb.Basics Bdb.Filters Bdb.StepMode.
+                                                           -> C05_continue_partial (hyp. not_gen_frame) *)
+From NL Require Import Bdb.Model Bdb.Basics Bdb.Filters Bdb.StepMode Bdb.ContinueMode Bdb.NextMode Bdb.NextProps.
+Open Scope list_scope.
 Open Scope Z_scope.
 
-(** every prompt is at an event of the stream (same kind, line, frame), and that event
-    belongs to a frame the filter chain accepted: with module tracing off a frame of the
-    script module; with module tracing on not a lambda and not a skip-listed module.
-    PARTIAL: the clause "never in a lambda" is proved only for module tracing on
-    (hypothesis added: c_modules c = true for that clause). *)
-Theorem C05_filters_partial : forall c pol evs p,
+(** every prompt is at an event of the stream (same kind, line, frame); that event is never in a
+    frame whose code name is <lambda>; with module tracing off it is in the script module; with module
+    tracing on it is not in a skip-listed module.  (Hypothesis: a frame's module and code name do not
+    change during its life.) *)
+Theorem C05_filters : forall c pol evs p,
   frame_attrs_const evs -> In p (prompts c pol evs) ->
   exists e, nth_error evs (p_idx p) = Some e /\
             p_kind p = e_kind e /\ p_line p = e_line e /\ p_fid p = e_fid e /\
+            e_lam e = false /\
             (c_modules c = false -> e_mc e = MScript) /\
-            (c_modules c = true -> e_lam e = false /\ e_mc e <> MSkip).
-Proof. exact filters_partial. Qed.
+            (c_modules c = true -> e_mc e <> MSkip).
+Proof. exact filters_full. Qed.
 
 (** no prompt (and no trace call) in a thread other than the main one when thread tracing is off *)
 Theorem C05_threads_off : forall c pol evs,
@@ -56,22 +53,11 @@ Definition lambda_stream : list event :=
    ev KCall 2 (Some 1) 1 MScript true false; ev KLine 2 (Some 1) 1 MScript true false;
    ev KReturn 2 (Some 1) 1 MScript true false; ev KReturn 1 (Some 0) 2 MScript false false].
 
-Theorem C05_lambda_refuted :
-  exists evs p e, frame_attrs_const evs /\ In p (prompts cfg_off (all Step) evs) /\
-                  nth_error evs (p_idx p) = Some e /\ e_lam e = true.
-Proof.
-  exists lambda_stream, (mkP 4 KLine 1 2), (ev KLine 2 (Some 1) 1 MScript true false).
-  split.
-  - intros e1 e2 H1 H2. simpl in H1, H2.
-    repeat (destruct H1 as [H1|H1]; [subst e1|]); try contradiction;
-    repeat (destruct H2 as [H2|H2]; [subst e2|]); try contradiction; simpl; intro; try discriminate; auto.
-  - vm_compute. repeat split; auto 10.
-Qed.
-
-(** with module tracing on the same stream has no prompt in the lambda *)
-Example C05_lambda_on_ok :
+(** regression (repaired in /repo e4beda9): no prompt inside the lambda, for both settings *)
+Example C05_lambda_regression :
+  map p_idx (prompts cfg_off (all Step) lambda_stream) = [1; 2; 6]%nat /\
   map p_idx (prompts cfg_on (all Step) lambda_stream) = [1; 2; 6]%nat.
-Proof. vm_compute. reflexivity. Qed.
+Proof. vm_compute. auto. Qed.
 
 (** a callable statement: the user's lines are in a module that is not _script *)
 Definition callable_stream : list event :=
@@ -134,6 +120,59 @@ Theorem C05_step : forall c evs,
   = step_spec c 0%nat (s_filter (init c)) [] evs.
 Proof. exact step_lines. Qed.
 
+(** all-continue, PARTIAL.  Hypothesis added (excludes known finding 4): the frame [b] below the
+    first accepted frame exists and is never entered as a generator/coroutine frame.  [pre] = the
+    events before the first accepted call (every call in it is rejected), [e0] that call, [l] the
+    line event that follows it: exactly one prompt, at that line, none after. *)
+Theorem C05_continue_partial : forall c pre e0 l post b fs1,
+  stream_traced c = true ->
+  skip_pre c (s_filter (init c)) pre = Some fs1 ->
+  e_kind e0 = KCall -> fst (rejected c e0 fs1) = false -> e_par e0 = Some b ->
+  e_kind l = KLine -> e_fid l = e_fid e0 ->
+  not_gen_frame b (pre ++ e0 :: l :: post) ->
+  prompts c (all Continue) (pre ++ e0 :: l :: post) = [mkP (S (List.length pre)) KLine (e_line l) (e_fid l)].
+Proof. exact continue_once. Qed.
+
+(** all-next, PARTIAL.  Hypothesis added (excludes known finding 3): [simple_tb] -- at every event the
+    frame Pdb selects is the event's frame (no exception event whose traceback goes into another
+    frame).  The debugger then refines the small history automaton [next_spec] (NextMode.v) ... *)
+Theorem C05_next_partial : forall c evs,
+  (forall e, In e evs -> simple_tb e) -> prompts c (all Next) evs = next_spec c evs.
+Proof. exact next_refines. Qed.
+
+(** ... and, in the words of the property: if frame [f] (not a generator) is prompted at [ei] (not its
+    return) and [ej] is the next event of [f], then NOTHING in between is prompted -- nothing inside
+    the calls it makes -- *)
+Theorem C05_next_nothing_inside_calls : forall c pre mid post ei ej f,
+  (forall e, In e (pre ++ ei :: mid ++ ej :: post) -> simple_tb e) ->
+  e_fid ei = f -> (forall e, In e mid -> e_fid e <> f) ->
+  (forall e, In e (pre ++ [ei]) -> e_kind e = KCall -> e_fid e = f -> e_gen e = false) ->
+  e_kind ei <> KReturn ->
+  In (List.length pre) (map p_idx (prompts c (all Next) (pre ++ ei :: mid ++ ej :: post))) ->
+  forall k, (List.length pre < k < S (List.length pre) + List.length mid)%nat ->
+  ~ In k (map p_idx (prompts c (all Next) (pre ++ ei :: mid ++ ej :: post))).
+Proof. exact next_nothing_inside. Qed.
+
+(** ... [ej] itself is prompted if it is a line: every line of the frame being stepped ... *)
+Theorem C05_next_every_line : forall c pre mid post ei ej f,
+  (forall e, In e (pre ++ ei :: mid ++ ej :: post) -> simple_tb e) ->
+  e_fid ei = f -> e_fid ej = f -> (forall e, In e mid -> e_fid e <> f) ->
+  (forall e, In e (pre ++ [ei]) -> e_kind e = KCall -> e_fid e = f -> e_gen e = false) ->
+  e_kind ei <> KReturn ->
+  In (List.length pre) (map p_idx (prompts c (all Next) (pre ++ ei :: mid ++ ej :: post))) ->
+  e_kind ej = KLine -> 0 <= e_line ej ->
+  In (S (List.length pre) + List.length mid)%nat (map p_idx (prompts c (all Next) (pre ++ ei :: mid ++ ej :: post))).
+Proof. exact next_line_prompted. Qed.
+
+(** ... and after the prompt of a return, the next line of a frame prompted before (its caller) is prompted *)
+Theorem C05_next_after_return : forall c pre ei ej post p,
+  (forall e, In e (pre ++ ei :: ej :: post) -> simple_tb e) ->
+  e_kind ei = KReturn -> In (List.length pre) (map p_idx (prompts c (all Next) (pre ++ ei :: ej :: post))) ->
+  e_kind ej = KLine ->
+  In p (prompts c (all Next) (pre ++ ei :: ej :: post)) -> p_fid p = e_fid ej -> (p_idx p < List.length pre)%nat ->
+  In (S (List.length pre)) (map p_idx (prompts c (all Next) (pre ++ ei :: ej :: post))).
+Proof. exact next_after_return. Qed.
+
 (** non-vacuity: def f(a): b = a + 1; return b / x = f(1) -- all-step prompts at every line,
     all-next not inside f, all-continue once *)
 Definition ex_stream : list event :=
@@ -148,19 +187,38 @@ Example C05_example_nonvacuous :
   map p_idx (prompts cfg_off (all Step) ex_stream) = [1; 2; 3; 4; 5; 6; 7; 8]%nat /\
   step_spec cfg_off 0%nat (s_filter (init cfg_off)) [] ex_stream = [1; 2; 4; 5; 7]%nat /\
   map p_idx (prompts cfg_off (all Next) ex_stream) = [1; 2; 7; 8]%nat /\
-  map p_idx (prompts cfg_off (all Continue) ex_stream) = [1]%nat.
+  map p_idx (prompts cfg_off (all Continue) ex_stream) = [1]%nat /\
+  (* hypotheses of C05_continue_partial: pre = [], e0 = the call of <module>, l = its first line, b = 0 *)
+  skip_pre cfg_off (s_filter (init cfg_off)) [] = Some (s_filter (init cfg_off)) /\
+  fst (rejected cfg_off (ev KCall 1 (Some 0) 0 MScript false false) (s_filter (init cfg_off))) = false /\
+  not_gen_frame 0 ex_stream /\
+  (* hypotheses of the C05_next_* theorems: ei = line 4 of <module> (index 2, calls f), mid = the four
+     events of f, ej = line 5 of <module> (index 7) *)
+  (forall e, In e ex_stream -> simple_tb e) /\
+  In 2%nat (map p_idx (prompts cfg_off (all Next) ex_stream)) /\
+  next_spec cfg_off ex_stream = prompts cfg_off (all Next) ex_stream.
 Proof.
   split.
   - intros e1 e2 H1 H2. simpl in H1, H2.
     repeat (destruct H1 as [H1|H1]; [subst e1|]); try contradiction;
     repeat (destruct H2 as [H2|H2]; [subst e2|]); try contradiction; simpl; intro; try discriminate; auto.
-  - vm_compute. repeat split; auto.
+  - split; [vm_compute; reflexivity|]. split; [vm_compute; reflexivity|]. split; [vm_compute; reflexivity|].
+    split; [vm_compute; reflexivity|]. split; [reflexivity|]. split; [vm_compute; reflexivity|].
+    split.
+    { intros e H K F. simpl in H. repeat (destruct H as [H|H]; [subst e; simpl in *; try discriminate|]); try contradiction. }
+    split.
+    { intros e H. simpl in H. repeat (destruct H as [H|H]; [subst e; exact I|]). contradiction. }
+    split; [vm_compute; auto|]. vm_compute. reflexivity.
 Qed.
 
-Print Assumptions C05_filters_partial.
+Print Assumptions C05_filters.
 Print Assumptions C05_threads_off.
-Print Assumptions C05_lambda_refuted.
 Print Assumptions C05_callable_refuted.
 Print Assumptions C05_next_refuted.
 Print Assumptions C05_continue_refuted.
 Print Assumptions C05_step.
+Print Assumptions C05_continue_partial.
+Print Assumptions C05_next_partial.
+Print Assumptions C05_next_nothing_inside_calls.
+Print Assumptions C05_next_every_line.
+Print Assumptions C05_next_after_return.
